@@ -26,7 +26,7 @@ PY = '/venv/bin/python'
 if REPO not in sys.path:
     sys.path.insert(0, REPO)
 
-GENERATORS = ['gen_tables.py', 'gen_sharing.py', 'gen_alias.py']
+GENERATORS = ['gen_tables.py', 'gen_sharing.py', 'gen_alias.py', 'gen_source.py']
 ALLOWED_AXIOMS = {'propext', 'Classical.choice', 'Quot.sound'}
 FORBIDDEN_RE = re.compile(
     r'\bsorry\b|\badmit\b|^axiom\s|native_decide|bv_decide|implemented_by|'
@@ -179,7 +179,7 @@ def prop_modules(prop_id):
     """Lean modules that carry the obligations of a property: EpsieProps.<id> and,
     when present, EpsieProps.<id>Table (obligations about the generated tables)."""
     mods = []
-    for suffix in ('', 'Table'):
+    for suffix in ('', 'Table', 'Source'):
         if os.path.exists(os.path.join(LEAN_DIR, 'EpsieProps', prop_id + suffix + '.lean')):
             mods.append('EpsieProps.' + prop_id + suffix)
     return mods
